@@ -93,6 +93,14 @@ func c10Tables(thorough bool) []c10Table {
 	}
 	// first start != 0, count mismatches
 	out = append(out, c10Table{pairs: []uint32{1, 2, 4, 6}, count: 2}, c10Table{pairs: []uint32{0, 2}, count: 1}, c10Table{pairs: nil, count: 0})
+	// borders far beyond the end of the file, where sector * 2048 no longer fits 32 bits: the encrypted region then
+	// covers the rest of the file
+	for _, huge := range []uint32{1<<21 - 1, 1 << 21, 1<<21 + 8, 1 << 22, 1 << 31, 0xFFFFFFF0} {
+		for _, e0 := range []uint32{0, 1, 5} {
+			out = append(out, c10Table{pairs: []uint32{0, e0, huge, huge + 4}, count: 2})
+		}
+		out = append(out, c10Table{pairs: []uint32{0, 1, 4, 6, huge, huge + 1}, count: 3})
+	}
 	// 255 regions (fills sector 0 exactly)
 	var big []uint32
 	for i := uint32(0); i < 255; i++ {
@@ -167,7 +175,7 @@ var c10Lens = []int{1, 15, 16, 17, 2047, 2048, 2049, 4096, c10Sectors * 2048}
 func TestC10(t *testing.T) {
 	r := NewReporter(t)
 	defer r.Done()
-	r.Rule("12-sector images with position-dependent content x 4 disc keys x every plain-region table with 2 regions (all border triples in [0,14]) and 3 regions (monotone borders) + count 255 + clearly invalid tables x {clearRegions 0/1} x underlying Read capped at {none,1,16,2047,2048} x op sequences of depth <= 2 over Read/Seek/ReadAt at sector/region borders +-1,+-16; oracle = reference AES-CBC written on raw block calls; distinct by (table, key, clear, cap, op sequence)")
+	r.Rule("12-sector images with position-dependent content x 4 disc keys x every plain-region table with 2 regions (all border triples in [0,14]) and 3 regions (monotone borders) + count 255 + borders at 2^21-1..0xFFFFFFF0 sectors + clearly invalid tables + one sparse image of 4 GiB + 128 KiB read around the 4 GiB mark x {clearRegions 0/1} x underlying Read capped at {none,1,16,2047,2048} x op sequences of depth <= 2 over Read/Seek/ReadAt at sector/region borders +-1,+-16; oracle = reference AES-CBC written on raw block calls; distinct by (table, key, clear, cap, op sequence)")
 	dir := filepath.Join(scratchBase(), sprintf("verifh-c10-%d", os.Getpid()))
 	must(os.MkdirAll(dir, 0o755))
 	defer os.RemoveAll(dir)
@@ -206,6 +214,11 @@ func TestC10(t *testing.T) {
 	}
 	if r.Shard == 0 {
 		anchorOpenssl(r)
+	}
+	// an image larger than 4 GiB (sparse): offsets, sector numbers and region borders beyond 2^32 bytes
+	caseIdx++
+	if r.Mine(caseIdx) {
+		c10HugeImage(r, dir)
 	}
 	caps := []int{0, 1, 16, 2047, 2048}
 	for ti, tb := range tables {
@@ -341,6 +354,9 @@ func TestC10(t *testing.T) {
 					runSeq([]ioOp{{Kind: "read", N: n1}, {Kind: "readat", N: 2049, Off: 2047}, {Kind: "read", N: 17}})
 					runSeq([]ioOp{{Kind: "read", N: n1}, {Kind: "seek", Off: 17, Whence: io.SeekCurrent}, {Kind: "read", N: 2048}})
 					runSeq([]ioOp{{Kind: "seek", Off: -int64(n1), Whence: io.SeekEnd}, {Kind: "read", N: 4096}, {Kind: "read", N: 1}})
+					// a refused seek (to before the start) leaves the cursor where it was
+					runSeq([]ioOp{{Kind: "read", N: n1}, {Kind: "seek", Off: -1, Whence: io.SeekStart}, {Kind: "read", N: 2049}, {Kind: "seek", Off: -int64(n1) - 5000, Whence: io.SeekCurrent}, {Kind: "read", N: 100}})
+					runSeq([]ioOp{{Kind: "seek", Off: 2047, Whence: io.SeekStart}, {Kind: "seek", Off: -1 << 40, Whence: io.SeekEnd}, {Kind: "read", N: n1}})
 				}
 				// an I/O error of the underlying file at the k-th operation: the failing call reports an error, and
 				// whatever is read afterwards must again be reference plaintext of some position between the old
@@ -488,4 +504,120 @@ func anchorOpenssl(r *Reporter) {
 		}
 	}
 	r.Extra("openssl_anchor_sectors", n)
+}
+
+// c10HugeImage: a sparse image of 2^21+64 sectors (4 GiB + 128 KiB) whose encrypted region ends at sector 2^21+10;
+// the on-disk content around the 4 GiB mark is written explicitly, the reference is computed per sector.
+func c10HugeImage(r *Reporter, dir string) {
+	const S = 1 << 21
+	key := c10Keys[1]
+	pairs := []uint32{0, 1, S + 10, S + 20}
+	p := filepath.Join(dir, "huge4g.iso")
+	f, err := os.Create(p)
+	must(err)
+	defer os.Remove(p)
+	must(f.Truncate(int64(S+64) * 2048))
+	_, err = f.WriteAt(regionTable(pairs), 0)
+	must(err)
+	dk := refDeriveKey(key)
+	// plaintext pattern for sectors S-4 .. S+24, stored encrypted where the table says so
+	want := map[int64][]byte{}
+	for sct := int64(S - 4); sct < S+24; sct++ {
+		plain := patBytes(byte(sct), sct*2048, 2048)
+		want[sct] = plain
+		disk := plain
+		if sct > 1 && sct < S+10 {
+			disk = refCBCEncryptSector(dk, uint32(sct), plain)
+		}
+		_, err = f.WriteAt(disk, sct*2048)
+		must(err)
+	}
+	must(f.Close())
+	lo, hi := int64(S-4)*2048, int64(S+24)*2048
+	ref := func(off int64, n int) []byte {
+		out := make([]byte, 0, n)
+		for len(out) < n {
+			sct := off / 2048
+			in := off % 2048
+			k := min(n-len(out), int(2048-in))
+			out = append(out, want[sct][in:int(in)+k]...)
+			off += int64(k)
+		}
+		return out
+	}
+	for _, cp := range []int{0, 1000} {
+		raw, err := afero.NewOsFs().Open(p)
+		must(err)
+		var fl afero.File = raw
+		if cp > 0 {
+			v := newVFs(afero.NewOsFs(), "cap")
+			v.record = false
+			v.Hook = func(e FsEvent) *FsFault {
+				if e.Op == "Read" && e.N > cp {
+					return &FsFault{Short: cp}
+				}
+				return nil
+			}
+			fl = v.wrap(raw, p)
+		}
+		view, err := pfs.NewEncryptedISO(fl, key, false)
+		r.Transition(1)
+		if err != nil {
+			r.Violation("C10:huge-image:open", "valid table with borders beyond 4 GiB rejected: "+err.Error(), nil)
+			fl.Close()
+			continue
+		}
+		bad := func(kind string, off int64, n int, got []byte, err error) bool {
+			if err != nil && err != io.EOF {
+				r.Violation("C10:huge-image:"+kind+"-error", sprintf("image of 4 GiB + 128 KiB, read cap %d: %s of %d bytes at %d failed: %v", cp, kind, n, off, err), map[string]any{"offset": off, "n": n})
+				return true
+			}
+			if d := describeDiff(got, ref(off, len(got))); d != "" || len(got) != n {
+				r.Violation("C10:huge-image:"+kind+"-wrong-bytes", sprintf("image of 4 GiB + 128 KiB, read cap %d: %s of %d bytes at %d (sector 2^21%+d): got %d bytes, %s", cp, kind, n, off, off/2048-S, len(got), d), map[string]any{"offset": off, "n": n})
+				return true
+			}
+			return false
+		}
+		nbad := 0
+		for off := lo; off+4200 <= hi && nbad < 4; off += 1023 {
+			for _, n := range []int{1, 2048, 4100} {
+				buf := make([]byte, n)
+				k, err := view.ReadAt(buf, off)
+				r.Transition(1)
+				if bad("readat", off, n, buf[:k], err) {
+					nbad++
+				}
+				if _, err := view.Seek(off, io.SeekStart); err != nil {
+					r.Violation("C10:huge-image:seek", sprintf("seek to %d failed: %v", off, err), nil)
+					nbad++
+					continue
+				}
+				got, err := readFullRSRA(view, n)
+				r.Transition(1)
+				if bad("read", off, n, got, err) {
+					nbad++
+				}
+			}
+		}
+		r.State(sprintf("huge-image cap=%d", cp))
+		r.Nontrivial(sprintf("huge-image cap=%d", cp))
+		r.Outcome("huge-image-checked")
+		view.Close()
+	}
+}
+
+func readFullRSRA(v rsra, n int) ([]byte, error) {
+	buf := make([]byte, n)
+	got := 0
+	for got < n {
+		k, err := v.Read(buf[got:])
+		got += k
+		if err != nil {
+			return buf[:got], err
+		}
+		if k == 0 {
+			return buf[:got], io.ErrNoProgress
+		}
+	}
+	return buf, nil
 }
